@@ -395,7 +395,7 @@ func clipStr(s string, n int) string {
 
 func stressProp(t *testing.T, test string, aged bool) {
 	violated := false
-	over := localBudget("STRESS", 15, 200)
+	over := localBudget("STRESS", 15, 150)
 	ev.Check(t, test, func(rt *rapid.T) {
 		if violated || over() {
 			return
